@@ -53,3 +53,13 @@ Theorem C20_seek_failed_keeps_position : forall me (f : qfile) ts s,
   pos (snd (seek_ts_state me f ts s)) = pos s.
 Proof. exact seek_absent_keeps_position. Qed.
 Print Assumptions C20_seek_failed_keeps_position.
+
+(** Two (or more) files behind a qLogReader, reading part of C20_two_files:
+    from SeekStart, ReadNext until EOF returns every line of every file as
+    (file index, start, length): newest file first, each file backwards, each
+    line once. *)
+Theorem C20_two_files_read : forall me buf (fs : list qfile),
+  0 < me <= buf -> Forall (lines_ok me) fs ->
+  reader_read_all me buf (S (total_len fs)) (reader_seek_start (new_reader fs)) = all_rev fs.
+Proof. exact reader_reverse_complete. Qed.
+Print Assumptions C20_two_files_read.
